@@ -196,8 +196,19 @@ def sel_default_src(fam, f, variant):
     raise ValueError(o)
 
 
+def move_src(m):
+    a = dyn_src(m["arg"])
+    if m["op"] == "shift":
+        return ".shift(%s)" % a
+    if m["op"] == "at":
+        return ".at(%s)" % a if m.get("ref") is None else ".at(%s, %r)" % (a, m["ref"])
+    return ".aligned(%s)" % a if m.get("ref") is None else ".aligned(%s, %r)" % (a, m["ref"])
+
+
 def field_src(fam, f, variant):
     s = base_field_src(fam, f, variant)
+    if "lost_move" in f:
+        s += move_src(f["lost_move"])      # written on the wrapped field, before .when()/.repeated()
     if "rep" in f:
         r = f["rep"]
         args = []
@@ -219,14 +230,7 @@ def field_src(fam, f, variant):
             args.append("default=%r" % o["default"])
         s += ".when(%s)" % ", ".join(args)
     if "move" in f:
-        m = f["move"]
-        a = dyn_src(m["arg"])
-        if m["op"] == "shift":
-            s += ".shift(%s)" % a
-        elif m["op"] == "at":
-            s += ".at(%s)" % a if m.get("ref") is None else ".at(%s, %r)" % (a, m["ref"])
-        else:
-            s += ".aligned(%s)" % a if m.get("ref") is None else ".aligned(%s, %r)" % (a, m["ref"])
+        s += move_src(f["move"])
     if "describe" in f:
         dsc = f["describe"]
         if dsc["k"] == "autolength":
